@@ -78,6 +78,34 @@ def _foreign_use_of_shared_classes():
         pass
 
 
+_ORIG_CWD = os.getcwd()
+_TZS = [None, 'UTC0', 'EST5EDT,M3.2.0,M11.1.0', 'IST-5:30', 'LINT-14', 'America/Los_Angeles']
+_LANGS = [None, 'C', 'C.utf8', 'de_DE.UTF-8', 'POSIX']
+
+
+def _case_environment(idx):
+    """What a decoder shows is a function of the bytes it is given: not of the time zone, the language settings, the
+    current directory or HOME.  Every case runs under another combination of them (a function of the case number
+    and the seed, so a run can be repeated); the expectations come from the specification and do not move."""
+    import time
+    if os.environ.get('VERIF_NO_ENV') == '1':
+        return
+    k = idx + _SEED
+    for var, val in (('TZ', _TZS[k % len(_TZS)]), ('LANG', _LANGS[(k // 2) % len(_LANGS)]),
+                     ('LC_ALL', _LANGS[(k // 3) % len(_LANGS)] if k % 4 == 0 else None),
+                     ('HOME', ['/root', '/nonexistent/verif-home', '/'][k % 3]),
+                     ('COLUMNS', [None, '40', '200'][(k // 5) % 3])):
+        if val is None:
+            os.environ.pop(var, None)
+        else:
+            os.environ[var] = val
+    time.tzset()
+    try:
+        os.chdir(['/', os.environ.get('VERIF_SCRATCH') or '/', '/tmp'][k % 3])
+    except OSError:
+        pass
+
+
 def _worker_run(item):
     idx, case = item
     limit = getattr(_PROP, 'CASE_TIMEOUT', 120)
@@ -89,8 +117,9 @@ def _worker_run(item):
     from . import seams as _seams
     variant = None
     if every and idx % every == every - 1 and os.environ.get('VERIF_NO_PROC') != '1':
-        variant = _seams.PROC_VARIANTS[(idx // every + _SEED) % len(_seams.PROC_VARIANTS)]
+        variant = _seams.PROC_ROTATION[(idx // every + _SEED) % len(_seams.PROC_ROTATION)]
     _seams.set_proc_variant(variant)
+    _case_environment(idx)
     try:
         recs = _PROP.run_case(case)
         if variant:
@@ -130,6 +159,10 @@ def _worker_run(item):
     finally:
         signal.setitimer(signal.ITIMER_REAL, 0)
         _seams.set_proc_variant(None)
+        try:
+            os.chdir(_ORIG_CWD)
+        except OSError:
+            pass
 
 
 def drive(prop_name, cases, procs=16, chunks=8):
